@@ -27,10 +27,11 @@ func DefaultGenOpts(zone string) GenOpts {
 	return GenOpts{Zone: zone, MaxTrips: 5, MaxVehicles: 4, MaxIdless: 2, MaxAlerts: 3, MaxSTU: 5, MaxSelectors: 5}
 }
 
-var idStrings = []string{"A", "b", "1", "L03N", "123456_A..N", "x y", "é", "漢", "a,b", "\"q\"", " lead", "T", "t", "0", longID}
+var idStrings = []string{"A", "b", "1", "L03N", "123456_A..N", "x y", "é", "漢", "a,b", "\"q\"", " lead", "T", "t", "0", longID, longID, hugeID}
 
-// longID is longer than any small fixed buffer (300 bytes).
+// longID is longer than any small fixed buffer (300 bytes); hugeID longer than 64 KiB.
 var longID = strings.Repeat("long-identifier-", 19)
+var hugeID = strings.Repeat("0123456789abcdef", 4200)
 
 func opt[T any](t *rapid.T, label string, g *rapid.Generator[T]) *T {
 	if rapid.Bool().Draw(t, label+"?") {
@@ -107,6 +108,11 @@ func GenTripDesc(t *rapid.T, idx int, zone string) TripDesc {
 	switch {
 	case mode <= 5: // trip id (+ anything)
 		d.TripID = P(fmt.Sprintf("%s-%d", base, idx))
+		if rapid.IntRange(0, 5).Draw(t, "prefixID") == 0 {
+			// ids that are prefixes / suffixes of one another: "A-1", "A-1x", "xA-1" ... (idx keeps them distinct)
+			d.TripID = P(rapid.SampledFrom([]string{"%d", "%d0", "0%d", "%dx", "x%d", "%d "}).Draw(t, "prefixShape"))
+			*d.TripID = fmt.Sprintf(*d.TripID, idx)
+		}
 		if rapid.Bool().Draw(t, "route?") {
 			d.RouteID = P(rapid.SampledFrom([]string{"R", "M", "7X", "r 1"}).Draw(t, "route"))
 		}
@@ -284,7 +290,7 @@ func GenMsg(t *rapid.T, o GenOpts) (*Msg, MsgInfo) {
 	m := &Msg{Timestamp: opt(t, "headerTs", gUTime64)}
 	if !o.NoSizeClasses && rapid.IntRange(0, 24).Draw(t, "sizeClass") == 0 {
 		// size class: counts beyond the thresholds code plausibly contains (16, 32, 64 entries; 256-byte buffers)
-		n := rapid.SampledFrom([]int{17, 33, 70}).Draw(t, "sizeN")
+		n := rapid.SampledFrom([]int{17, 33, 70, 130, 260, 520}).Draw(t, "sizeN")
 		switch rapid.IntRange(0, 3).Draw(t, "sizeWhat") {
 		case 0:
 			o.MaxTrips, o.MaxVehicles = n, n
